@@ -1590,6 +1590,21 @@ pub fn execute(plan: &Plan, obs: &mut Obs) -> Result<(), Fail> {
                             "refuse_late"
                         };
                         let same = call(P, "FXRates::eq", || mk[ti].fx == snapshot)?;
+                        // a market in the far regime may hold NaN second-order terms (inf - inf
+                        // inside the library's own reciprocal rule); `==` is then false even
+                        // between a market and its untouched clone: no verdict from `==` there
+                        let same = if same {
+                            true
+                        } else {
+                            let reflexive = call(P, "FXRates::eq", || {
+                                let c = snapshot.clone();
+                                c == snapshot
+                            })?;
+                            if !reflexive {
+                                obs.count("skipped.equality_of_market_holding_nan");
+                            }
+                            !reflexive
+                        };
                         let after = market_digest(&mk[ti])?;
                         if !same || after != before {
                             return Err(v(
